@@ -835,3 +835,51 @@ def carried_state_writes(b, region):
                 out.append((n, o))
                 break
     return out
+
+
+def generators_iterated_twice(b):
+    """[(first loop, second loop, generator qualname)]: two loops that consume one and the
+    same generator object with a consistent path from the end of the first to the
+    second -- the second iteration finds the generator exhausted and sees nothing."""
+    by_gen = {}
+    for lp in b.nodes('loop'):
+        gen = lp.data.get('genobj')
+        if lp.data.get('kind') == 'generator' and gen is not None and lp.id in b.live:
+            by_gen.setdefault(id(gen), []).append(lp)
+    out = []
+    for loops in by_gen.values():
+        if len(loops) < 2:
+            continue
+        for l1 in loops:
+            ex = l1.data.get('exit')
+            if ex is None:
+                continue
+            for l2 in loops:
+                if l2.id == l1.id:
+                    continue
+                # not the re-entry of one loop through an enclosing loop: that makes a
+                # fresh generator object at run time only if its creation is inside too
+                blocked = [l1.id]
+                for _ in range(8):
+                    pth = feasible_path(b, [ex], l2.id, blocked=blocked)
+                    if pth is None:
+                        break
+                    # the value iterated at a dispatch is the alternative handed over at
+                    # alt_site: a path that passed the hand-over of another alternative
+                    # of the same group last does not iterate this generator there
+                    clash = None
+                    for i, nid in enumerate(pth):
+                        dn = b.g.n(nid)
+                        if dn.kind != 'dispatch' or not dn.data.get('group') or \
+                                dn.data.get('alt_site') is None:
+                            continue
+                        grp = set(str(s_) for s_ in dn.data['group'])
+                        last = [str(x) for x in pth[:i] if str(x) in grp]
+                        if last and last[-1] != str(dn.data['alt_site']):
+                            clash = [x for x in pth[:i] if str(x) == last[-1]][-1]
+                            break
+                    if clash is None:
+                        out.append((l1, l2, l1.data.get('gen')))
+                        break
+                    blocked.append(clash)
+    return out
